@@ -1,6 +1,6 @@
 (* C06 -- generated unit files read back exactly as generated; values cannot forge lines. *)
 From QV Require Import Model.Base Model.Quote Model.Unquote Model.PortRange Model.Unit Model.Lex Model.Parser Spec.Layout
-  Model.Path Model.Names Model.Convert Model.Process Proofs.C01 Proofs.C03 Proofs.C06 Proofs.C06shape.
+  Model.Path Model.Names Model.Convert Model.Process Proofs.C01 Proofs.C03 Proofs.C06 Proofs.C11 Proofs.C06shape Proofs.C06full.
 
 (* a unit whose section names are distinct, non-empty and free of ']' and newline, whose keys are non-empty key
    characters and whose raw values are validated, newline-free, without leading blank or trailing white space,
@@ -66,3 +66,42 @@ Theorem C06_generated_services_read_back : forall podman exists_path kill_fixed 
   In (p, ROk svc sp) (snd (process_files podman exists_path kill_fixed mount_nl files)) ->
   EntriesOk svc -> parse_unit (to_string svc) = Some svc.
 Proof. exact run_services_read_back. Qed.
+
+(* ---- ... and without the hypothesis on validity: it is a theorem too (Proofs/C06full.v) ---- *)
+(* every value of every service of a run passes the load-time validation (file paths without NUL, as the kernel guarantees): NUL-freeness is
+   carried from the unit files -- a validated value has no NUL, nor has what unquoting or word-splitting it yields -- through the name table
+   (every service file name and registered container in it is NUL-free, along the whole run) to every value the generator stores *)
+Theorem C06_generated_services_are_validated : forall podman exists_path kill_fixed mount_nl files p svc sp,
+  (forall q t, In (q, t) files -> ~ In 0%N q) ->
+  In (p, ROk svc sp) (snd (process_files podman exists_path kill_fixed mount_nl files)) -> Validated svc.
+Proof. exact run_services_are_validated. Qed.
+
+(* THE GENERATOR CLAUSE: for arbitrary unit file contents, every service the generator produces -- unless one of its entries has an empty
+   key or a value with a blank at an edge (the known class BlankAtValueEdge) -- is read back, from the very text the generator writes, as
+   exactly itself: same sections, same entries, same values, same order *)
+Theorem C06_every_generated_service_reads_back : forall podman exists_path kill_fixed mount_nl files p svc sp,
+  (forall q t, In (q, t) files -> ~ In 0%N q) ->
+  In (p, ROk svc sp) (snd (process_files podman exists_path kill_fixed mount_nl files)) ->
+  EdgeFree svc -> parse_unit (to_string svc) = Some svc.
+Proof. exact run_services_read_back_exactly. Qed.
+
+(* non-vacuity: a run whose service meets the premises (checked by computation) and reads back *)
+Definition edge_freeb (u : unit) : bool :=
+  forallb (fun s : str * entries => forallb (fun e : entry =>
+    negb (match fst e with [] => true | _ => false end) &&
+    match snd e with c :: _ => negb (is_blank_c c) | [] => true end && str_eqb (trim_end (snd e)) (snd e)) (snd s)) u.
+Example C06_read_back_example :
+  match snd (process_files (s2l "/usr/bin/podman") (fun _ => false) true false
+               [(s2l "/d/a.container", s2l "[Unit]
+Description=a b
+[Container]
+Image=img
+Volume=/srv/my data:/data
+Exec=sh -c ""echo hi""
+[Install]
+WantedBy=default.target
+")]) with
+  | [(_, ROk svc _)] => edge_freeb svc = true /\ parse_unit (to_string svc) = Some svc /\ length svc = 4%nat
+  | _ => False
+  end.
+Proof. vm_compute. repeat split; reflexivity. Qed.
